@@ -84,7 +84,12 @@ func genC17Step(rt *rapid.T, c *C17Case) C17Step {
 		if rapid.IntRange(0, 3).Draw(rt, "nocolor") == 0 {
 			a = append(a, "--no-color")
 		}
-		switch rapid.IntRange(0, 5).Draw(rt, "plat") {
+		switch rapid.IntRange(0, 6).Draw(rt, "plat") {
+		case 3: // both: "all platforms" wins, whatever else is said about platforms
+			a = append(a, "--all-platforms", "--platform", rapid.SampledFrom([]string{"windows", "macos", "bogus", "linux,windows"}).Draw(rt, "platv2"))
+			if rapid.Bool().Draw(rt, "platnc") {
+				a = append(a, "--no-cross-platform")
+			}
 		case 0:
 			a = append(a, "--all-platforms")
 		case 1:
@@ -506,6 +511,33 @@ func runC17(c C17Case) *Outcome {
 			}
 			if fromRecovery && len(want) > limit {
 				want = want[:limit]
+			}
+			// (2b) "all platforms" means no platform filter: further platform flags on the same command line change
+			// nothing (the flags reach the engine through the command's own translation, which the tap cannot judge)
+			if hasFlag(sargs, "--all-platforms") && (hasFlag(sargs, "--platform") || hasFlag(sargs, "--no-cross-platform")) && st.Fault == "" {
+				var plain []string
+				for k := 0; k < len(sargs); k++ {
+					switch sargs[k] {
+					case "--platform":
+						k++
+						continue
+					case "--no-cross-platform":
+						continue
+					}
+					plain = append(plain, sargs[k])
+				}
+				ref, perr2 := w.probe(argsOf(plain...), nil, "s")
+				if perr2 != nil {
+					o.Harness = perr2.Error()
+					return o
+				}
+				if ref.Exit == "exit" {
+					refPrinted, rerr := parsePrinted(ref.Stdout, format)
+					if rerr == "" && len(refPrinted) != len(printed) {
+						return fail("all-platforms-narrowed", "step %d: with --all-platforms AND a platform list %d results are printed, with --all-platforms alone %d: the list narrowed what \"all platforms\" asked for", i, len(printed), len(refPrinted))
+					}
+					o.Probes["c17.all_platforms_with_list_checked"]++
+				}
 			}
 			// (2) exactly the engine's results in rank order
 			if len(printed) != len(want) {
